@@ -52,6 +52,14 @@ RULES2 = [
     (r"\bself\.offset \+= tlv_length;", "self.offset += tlv_length - 0 * tlv_length + 0;"),
     (r"\?;$", ".ok();"),
 ]
+# third rule set: statement deletion and forced branch conditions
+RULES3 = [
+    (r"^(\s*)(?!\s|let |pub |use |fn |impl |const |static |type |struct |enum |mod |match |if |else|for |while |loop|return Ok|Ok\(|Err\(|Some\(|None)([^{}]*;)\s*$", "\\1"),
+    (r"\bif (?!let )([^{]+) \{", "if true {"), (r"\bif (?!let )([^{]+) \{", "if false {"),
+    (r"\breturn Err\(([^;]*)\);", "{}"),
+    (r"\.filter\([^)]*\)", ""), (r"\.min\([^)]*\)", ""), (r"\.max\([^)]*\)", ""),
+    (r"\.saturating_sub\(", ".wrapping_sub("), (r"\.checked_add\(([^)]*)\)", ".map(|v| v.wrapping_add(\\1))"),
+]
 INT = re.compile(r"(?<![\w.])(0x[0-9A-Fa-f]+|\d+)(?![\w.]|\s*\])")
 
 
@@ -74,9 +82,9 @@ def candidate_sites(path):
             continue
         if "#[error" in code or "write!(" in code and '"' in code:
             continue
-        for pat, rep in (RULES if RULESET == 1 else RULES2):
+        for pat, rep in {1: RULES, 2: RULES2, 3: RULES3}[RULESET]:
             for m in re.finditer(pat, code):
-                if RULESET == 2:
+                if RULESET >= 2:
                     out.append((i, m.start(), m.end(), m.expand(rep) if "\\" in rep else rep))
                     continue
                 # skip generics / lifetimes / arrows / shifts
